@@ -230,6 +230,20 @@ class SimpleClassifier(Classifier):
         )
 
 
+def _type_var_occurs_in(t_var: Type, t: Type) -> bool:
+    """
+    Check whether the type variable `t_var` occurs in the type arguments
+    (at any depth) of the parameterized or wildcard type `t`.
+    """
+    if t.is_wildcard():
+        return t.bound is not None and (
+            t.bound == t_var or _type_var_occurs_in(t_var, t.bound))
+    if t.is_parameterized():
+        return any(t_arg == t_var or _type_var_occurs_in(t_var, t_arg)
+                   for t_arg in t.type_args)
+    return False
+
+
 class TypeParameter(AbstractType):
 
     def __init__(self, name: str, variance=None, bound: Type = None):
@@ -262,7 +276,10 @@ class TypeParameter(AbstractType):
         if bound == other:
             return True
         if hasattr(bound, "get_type_variables"):
-            return other in bound.get_type_variables(None)
+            # Look for the type variable in the type arguments of the bound.
+            # (`get_type_variables` also computes the bounds of the enclosed
+            # type variables, which requires a builtin factory.)
+            return _type_var_occurs_in(other, bound)
         return False
 
     def get_bound_rec(self, factory):
